@@ -7,7 +7,7 @@ for d in sorted(glob.glob("/verif/seeded/*")):
         continue
     m = json.load(open(os.path.join(d, "meta.json")))
     note = m.get("note", "")
-    first = "missed first, detected after strengthening" if note.startswith("initially MISSED") else ("NOT detected" if not m.get("detected_by_checks") else "detected")
+    first = "missed first, detected after strengthening" if note.startswith(("initially MISSED", "missed at first")) else ("NOT detected" if not m.get("detected_by_checks") else "detected")
     what = (m.get("what_breaks") or "").replace("|", "/").replace("\n", " ")
     what = what[:150] + ("..." if len(what) > 150 else "")
     rows.append(f"| {os.path.basename(d)} | {', '.join(m.get('files_changed', []))[:60]} | {what} | {', '.join(m.get('detected_by_checks', []))} | {first} |")
